@@ -786,24 +786,7 @@ Theorem F4_pinned_refuted :
           (seen_of_hfinal (entry_http {| fx1 := false; fx4 := true |} false true f4_cfg any_oracle f4_sc)) = true.
 Proof. vm_compute. repeat split; reflexivity. Qed.
 
-(** the hypotheses of [entry_points_meet_spec] are satisfiable by a non-trivial input: a rule whose
-    first handler (www_authenticate, condition false) does not apply and whose second one redirects,
-    configuration from a file, an authorization failure wrapped three levels deep *)
-Example nonvacuous_entry :
-  let c := {| c_verbose := true; ov_authn := 0; ov_authz := 470; ov_comm := 0; ov_precond := 0;
-              ov_norule := 0; ov_internal := 503 |} in
-  let cause := Chain [Sentinel KInternal; WrapW (JoinW [Foreign 5%nat; Chain [Sentinel KAuthorization] true])] false in
-  let sc := XFail [ {| x_applies := false; x_mech := MWWW "r"; x_conf := WcNone |};
-                    {| x_applies := true; x_mech := MRedirect 307 (Some "http://idp/login"%string); x_conf := WcNone |} ] cause in
-  let nv := {| nv_free := false; nv_allowed := [Html]; nv_other := [] |} in
-  oracle_ok nv any_oracle = false /\
-  oracle_ok nv (ne_always {| o_neg_http := Some Html; o_neg_grpc := Some Html; o_json_ne := true; o_xml_ne := true; o_plain_ne := true |}) = true /\
-  xguard_F1 unrepaired sc = false /\ xguard_F2 (loaded unrepaired true c) sc = false /\
-  xguard_F4 unrepaired true c (d_classes (demand_of sc)) = false /\
-  demand_of sc = {| d_classes := [ClRedirect 307 "http://idp/login"]; d_realm := None; d_hard := false |} /\
-  entry_http unrepaired true true c any_oracle sc =
-    HFinal 307 {| h_location := Some "http://idp/login"%string; h_www := None; h_ctype := None |} false.
-Proof. vm_compute. repeat split; reflexivity. Qed.
+
 
 (** the tree as it is: C12-F4 repaired (ed62adc), C12-F1 open *)
 Definition as_is := {| fx1 := false; fx4 := true |}.
@@ -830,3 +813,54 @@ Proof.
   - rewrite loaded_repaired; [exact G2 | reflexivity].
   - apply xguard_F4_repaired. reflexivity.
 Qed.
+
+(** ** C12-F1 (open): the guard is needed, stated with the specification of the main theorem.  A failure
+    handled by a www_authenticate handler with realm "r", the tree as it is: the guard fires, no other
+    does, and the answers of the HTTP services and of the Envoy service do not satisfy [seen_ok] (the
+    WWW-Authenticate header is missing); with the repair (fx1 = true) they do *)
+Definition zero_cfg := {| c_verbose := false; ov_authn := 0; ov_authz := 0; ov_comm := 0; ov_precond := 0;
+                          ov_norule := 0; ov_internal := 0 |}.
+Definition f1_sc := XFail [{| x_applies := true; x_mech := MWWW "r"; x_conf := WcNone |}] (Sentinel KAuthorization).
+Definition repaired := {| fx1 := true; fx4 := true |}.
+
+Theorem F1_refuted_spec :
+  xguard_F1 as_is f1_sc = true /\ xguard_F2 zero_cfg f1_sc = false /\
+  xguard_F4 as_is false zero_cfg (d_classes (demand_of f1_sc)) = false /\
+  oracle_ok free_view any_oracle = true /\
+  seen_ok zero_cfg free_view (hyp_never_success zero_cfg f1_sc) (demand_of f1_sc)
+          (seen_of_hfinal (entry_http as_is false false zero_cfg any_oracle f1_sc)) = false /\
+  seen_ok zero_cfg free_view (hyp_never_success zero_cfg f1_sc) (demand_of f1_sc)
+          (seen_of_hfinal (entry_http as_is true false zero_cfg any_oracle f1_sc)) = false /\
+  seen_ok zero_cfg free_view (hyp_never_success zero_cfg f1_sc) (demand_of f1_sc)
+          (seen_of_gfinal (entry_grpc as_is false zero_cfg any_oracle f1_sc)) = false /\
+  (* everything but the challenge clause holds there (what C12_entry_points_inside_guards says in general) *)
+  seen_ok_w (xwaiver as_is false zero_cfg f1_sc) zero_cfg free_view (hyp_never_success zero_cfg f1_sc) (demand_of f1_sc)
+          (seen_of_hfinal (entry_http as_is false false zero_cfg any_oracle f1_sc)) = true /\
+  xwaiver as_is false zero_cfg f1_sc = {| w_status := false; w_www := true |} /\
+  (* with fixes/C12-F1.diff *)
+  seen_ok zero_cfg free_view (hyp_never_success zero_cfg f1_sc) (demand_of f1_sc)
+          (seen_of_hfinal (entry_http repaired false false zero_cfg any_oracle f1_sc)) = true /\
+  seen_ok zero_cfg free_view (hyp_never_success zero_cfg f1_sc) (demand_of f1_sc)
+          (seen_of_gfinal (entry_grpc repaired false zero_cfg any_oracle f1_sc)) = true.
+Proof. vm_compute. repeat split; reflexivity. Qed.
+
+(** the hypotheses of [entry_points_meet_spec_as_is] are satisfiable by a non-trivial input: a rule whose
+    first handler (www_authenticate, condition false) does not apply and whose second one redirects,
+    configuration from a file, an authorization failure wrapped three levels deep, an Accept header that
+    admits text/html only and an oracle that negotiates it *)
+Definition html_oracle :=
+  ne_always {| o_neg_http := Some Html; o_neg_grpc := Some Html; o_json_ne := true; o_xml_ne := true; o_plain_ne := true |}.
+
+Example nonvacuous_entry :
+  let c := {| c_verbose := true; ov_authn := 0; ov_authz := 470; ov_comm := 0; ov_precond := 0;
+              ov_norule := 0; ov_internal := 503 |} in
+  let cause := Chain [Sentinel KInternal; WrapW (JoinW [Foreign 5%nat; Chain [Sentinel KAuthorization] true])] false in
+  let sc := XFail [ {| x_applies := false; x_mech := MWWW "r"; x_conf := WcNone |};
+                    {| x_applies := true; x_mech := MRedirect 307 (Some "http://idp/login"%string); x_conf := WcNone |} ] cause in
+  let nv := {| nv_free := false; nv_allowed := [Html]; nv_other := [] |} in
+  oracle_ok nv html_oracle = true /\ oracle_ok nv any_oracle = false /\
+  xguard_F1 as_is sc = false /\ xguard_F2 c sc = false /\
+  demand_of sc = {| d_classes := [ClRedirect 307 "http://idp/login"]; d_realm := None; d_hard := false |} /\
+  entry_http as_is true true c html_oracle sc =
+    HFinal 307 {| h_location := Some "http://idp/login"%string; h_www := None; h_ctype := None |} false.
+Proof. vm_compute. repeat split; reflexivity. Qed.
